@@ -40,9 +40,15 @@ def handler(case):
     steps = []
     import warnings
     warnings.simplefilter("ignore")
+    edit = case.get("edit")          # {"after": j, "name": n, "weight": w}: in the LAST step, after the j-th yielded name, the user changes a weight
     for k, st in enumerate(mc.irun(case["steps"])):
         mark = len(log)
-        names = [int(n[1:]) for n in st]
+        names, slot_marks = [], []
+        for j, n in enumerate(st):      # the step generator is consumed lazily, as a user loop over irun() does
+            names.append(int(n[1:]))
+            slot_marks.append(len(log) - mark)
+            if edit and k == case["steps"] - 1 and j == edit["after"] and f"m{edit['name']}" in mc.moves:
+                mc.moves[f"m{edit['name']}"].probability = edit["weight"] / 64.0
         calls = []
         for (meth, a, kw, r) in log[mark:]:
             if meth == "choice":
@@ -52,7 +58,7 @@ def handler(case):
                               "result": [str(x) for x in np.atleast_1d(r)]})
             else:
                 calls.append({"other": meth})
-        steps.append({"step": k, "names": names, "history": [[int(n[1:]), acc] for n, acc in mc.move_history], "calls": calls})
+        steps.append({"step": k, "names": names, "slot_marks": slot_marks, "history": [[int(n[1:]), acc] for n, acc in mc.move_history], "calls": calls})
     return {"refused": refused, "table": table, "steps": steps}
 
 
